@@ -62,10 +62,38 @@ class Builtin(Ext):
         self.fn = fn
 
     def py_call(self, I, args, kwargs):
+        if kwargs and self.name.startswith(("np.", "ndarray.", "rng.")) and not _reads_kwargs(self.fn):
+            # a model that never looks at its keyword arguments would silently ignore axis=, dtype=, out=, ...: refuse instead
+            raise Unsupported(f"{self.name}: keyword argument(s) {sorted(kwargs)} not modelled")
         return self.fn(I, args, kwargs)
 
     def __repr__(self):
         return f"<builtin {self.name}>"
+
+
+_KW_CACHE = {}
+
+
+def _reads_kwargs(fn):
+    """does the model function ever load its third parameter (the keyword dictionary)?"""
+    code = getattr(fn, "__code__", None)
+    if code is None:
+        return True
+    key = id(code)
+    if key not in _KW_CACHE:
+        ok = True
+        try:
+            import dis
+            if code.co_argcount >= 3:
+                kwname = code.co_varnames[2]
+                ok = any(ins.argval == kwname and ins.opname.startswith(("LOAD_FAST", "LOAD_DEREF", "LOAD_CLOSURE")) for ins in dis.get_instructions(code))
+                if not ok:
+                    # a nested function / lambda inside may capture it
+                    ok = kwname in code.co_cellvars
+        except Exception:  # noqa: BLE001
+            ok = True
+        _KW_CACHE[key] = ok
+    return _KW_CACHE[key]
 
 
 class BuiltinType(Ext):
